@@ -276,17 +276,20 @@ Definition abandon (u t : nat) (renamed : option nat) (w : world) : world :=
   let r := remove_uid u (reg w) in
   set_reg (match renamed with Some v => set_name v (Plain t) r | None => r end) w.
 
+(** the try block of [ModelReader.read_model]; reading never writes below <path>,
+    so the member operations run with the effect-free format *)
+Definition reader_body (t : nat) (f : fmt) (sh : list sop) (u : nat) (w : world) : res :=
+  let w := set_flag true w in
+  andthen (match f with Zip => prim TTmpdir tmp_inc w | Dir => Done w end) (fun w =>
+  let w := new_model w in
+  andthen (prim TROpen noeff w) (fun w =>
+  andthen (prim TRFill noeff w) (fun w =>
+  run_shape Zip sh (rename_new u t w)))).
+
 Definition reader (t : nat) (f : fmt) (sh : list sop) (w : world) : res :=
   let u := nuid w in
   let renamed := find_name (Plain t) (reg w) in
-  let body := fun w =>
-    let w := set_flag true w in
-    andthen (match f with Zip => prim TTmpdir tmp_inc w | Dir => Done w end) (fun w =>
-    let w := new_model w in
-    andthen (prim TROpen noeff w) (fun w =>
-    andthen (prim TRFill noeff w) (fun w =>
-    run_shape f sh (rename_new u t w)))) in
-  match try_finally body unwind w with          (* the [with] block exits inside the [try] *)
+  match try_finally (reader_body t f sh u) unwind w with   (* the [with] block exits inside the [try] *)
   | Done w' => Done (set_flag false w')
   | Raised w1 =>
       let w2 := if Nat.eqb (nuid w1) u then w1     (* self.model is still None *)
@@ -395,6 +398,44 @@ Fixpoint calm (l : list saveop) : Prop :=
                | [] => True
                end) /\ calm t
   end.
+
+(* ------------------------------------------------------------------ *)
+(** * specification of the rotation: every entry moves one place down into the
+    first hole; what falls off the end is deleted *)
+Fixpoint shift (carry : entry) (l : fsys) : fsys :=
+  match l with
+  | [] => []                                   (* falls off the end: deleted *)
+  | x :: t => carry :: (if present x then shift x t else t)
+  end.
+
+Definition rotate (l : fsys) : fsys :=
+  match l with
+  | [] => []
+  | e0 :: t => if present e0 then Absent :: shift e0 t else l
+  end.
+
+
+(** zip saves only *)
+Definition all_zip (l : list saveop) : Prop := Forall (fun s => is_dir_save s = false) l.
+
+
+(** never two failing saves in a row *)
+Fixpoint single_faults (l : list saveop) : Prop :=
+  match l with
+  | [] => True
+  | a :: t => (match t with b :: _ => faulted a = true -> faulted b = false | [] => True end)
+              /\ single_faults t
+  end.
+
+
+(** D17: two consecutive failing directory saves (shape of the "plain" corpus model) *)
+Definition plain_dir_shape : list sop :=
+  [SOpen; SFill; SOpen; SFill; SOpen; SMkdir true; SFill; SOpen; SMkdir true; SFill;
+   SOpen; SMkdir true; SFill; SDump].
+
+Definition d17_saves : list saveop :=
+  [(Dir, plain_dir_shape, None); (Dir, plain_dir_shape, Some 6); (Dir, plain_dir_shape, Some 7)].
+
 
 (* ------------------------------------------------------------------ *)
 (** * observations of the implementation, compared inside Coq by the tie *)
